@@ -3,6 +3,7 @@ INVARIANT Inv
 CONSTANTS
   MaxLen = 0
   MaxTok = 4
+  MaxFrag = 0
   EmitLen = 0
   EmitTok = 0
   Bounded = FALSE
